@@ -245,6 +245,38 @@ impl serde::Serialize for DeclaredLen {
         Err(S::Error::custom("stop after the header"))
     }
 }
+/// a sequence / map handed over as an iterator (`collect_seq` / `collect_map`): hint 0 = exact size hint,
+/// 1 = lower bound 0 with an upper bound (a filter), 2 = no upper bound
+struct Collected<'a> {
+    map: bool,
+    hint: u8,
+    items: &'a [u8],
+}
+struct Hinted<I>(I, u8, usize);
+impl<I: Iterator> Iterator for Hinted<I> {
+    type Item = I::Item;
+    fn next(&mut self) -> Option<I::Item> {
+        self.0.next()
+    }
+    fn size_hint(&self) -> (usize, Option<usize>) {
+        match self.1 {
+            0 => self.0.size_hint(),
+            1 => (0, Some(self.2)),
+            _ => (0, None),
+        }
+    }
+}
+impl serde::Serialize for Collected<'_> {
+    fn serialize<S: serde::Serializer>(&self, s: S) -> Result<S::Ok, S::Error> {
+        // hint 1: the upper bound is loose by one or exact by accident - either way the length is not known up front
+        let ub = self.items.len() + (self.items.len() % 2);
+        if self.map {
+            s.collect_map(Hinted(self.items.iter().map(|b| (*b, *b)), self.hint, ub))
+        } else {
+            s.collect_seq(Hinted(self.items.iter(), self.hint, ub))
+        }
+    }
+}
 struct Pieces<'a> {
     pieces: &'a [String],
     fail_at: i64,
@@ -320,6 +352,20 @@ fn c02_extras(r: &mut StdRng, out: &mut Out, n: usize) {
             Err(_p) => "panic".to_string(),
         };
         out.ev(json!({"op":"sequnk","map":map as u8,"bytes":jb(&rec.0.borrow()),"err":err}));
+        // the same through the iterator entry points, whose length comes from a size hint
+        for hint in 0..3u8 {
+            for len in [0usize, 1, 2, 3, 127, 128, 129] {
+                let items: Vec<u8> = (0..len).map(|_| r.gen()).collect();
+                let rec = RecFlavor(Default::default());
+                let res = catch(|| postcard::serialize_with_flavor(&Collected { map, hint, items: &items }, rec.clone()));
+                let err = match res {
+                    Ok(Ok(())) => "none".to_string(),
+                    Ok(Err(e)) => errname(&e).to_string(),
+                    Err(_p) => "panic".to_string(),
+                };
+                out.ev(json!({"op":"collected","map":map as u8,"hint":hint,"items":jb(&items),"bytes":jb(&rec.0.borrow()),"err":err}));
+            }
+        }
     }
     for i in 0..n {
         let np = r.gen_range(0..5);
